@@ -555,7 +555,7 @@ def main():
                 "InversePowerCoulombBoundingPotential.standard_velocity_derivative (C entry point uninterpreted)",
                 "MergedImageCoulombPotential.standard_velocity_derivative (C entry point uninterpreted)")
     powers = [1, 2, 3, 4, 6, 12] if chk.thorough else [1, 2, 6, 12]
-    chk.bound(powers=powers, dimensions="1-3", directions="every axis", even_powers=[2, 4, 6],
+    chk.bound(powers=powers, directions="every axis", even_powers=[2, 4, 6],
               symbolic="separation(s), prefactor, charges, speed > 0, sigma, equilibrium length/angle",
               arithmetic="ideal reals; rational powers in the uninterpreted-function power theory")
     chk.outside_claim("the merged-image lattice sum itself: convergence of the truncated Ewald sums, independence of "
@@ -567,26 +567,35 @@ def main():
     chk.register_replay("deriv", replay_deriv)
     TIMEOUT[0] = 600 if chk.thorough else 240
     tasks = []
-    dims = (1, 2, 3) if chk.thorough else (1, 2)
-    chk.bound(dimensions="1-3" if chk.thorough else "1-2 (3 in the thorough tier)")
+    dims = (1, 2)
+    chk.bound(dimensions="1-2")
+    # The thorough tier adds the powers 3 and 4 and every direction in 1-2 dimensions.  Dimension 3, Lennard-Jones in
+    # 2-3 dimensions and the bending potential were part of it, but their QF_UFNRA queries (600 s budget each) did not
+    # come back on this machine when run end to end (32 of 181 obligations undecided), so they are not claimed; they
+    # can be run with VERIF_C03_EXTRA=1 (the bending instances caught seeded change C03-b that way, with some of their
+    # queries undecided).
+    extra = os.environ.get("VERIF_C03_EXTRA") == "1"
+    if extra:
+        dims = (1, 2, 3)
     for p in powers:
         for dim in dims:
             for dr in range(dim):
-                if chk.thorough or ((dr == dim - 1 or dim == 2) and not (p == 1 and dim == 2 and dr == 1)):
+                if p == 1 and dim == 2 and dr == 1 and not extra:
+                    continue
+                if chk.thorough or dr == dim - 1 or dim == 2:
                     tasks.append(("ipp", p, dim, dr))
     for dim in dims:
         for dr in range(dim):
             if chk.thorough or dr == dim - 1:
-                if chk.thorough or dim == 1:
+                if dim == 1 or extra:
                     tasks.append(("lj", dim, dr))
                 for p in (2, 4, 6):
                     tasks.append(("dep", p, dim, dr))
-    if chk.thorough:
+    if extra:
         for dr in range(2):
             tasks.append(("bending", 2, dr))
-    else:
-        chk.outside_claim("quick tier: Lennard-Jones in 2-3 dimensions, inverse power 12 in 3 dimensions and the "
-                          "bending potential are decided in the thorough tier only (solver time)")
+    chk.outside_claim("Lennard-Jones in 2-3 dimensions, every potential in 3 dimensions and the bending potential "
+                      "(solver time; VERIF_C03_EXTRA=1 runs them without a claim)")
     tasks.append(("coulomb_c",))
     # The termwise structure check of merged_image_coulomb_potential.c ("lattice" instances: csym with exp/erfc
     # uninterpreted) is implemented above but not part of the claim: its QF_UFNRA term equalities do not terminate
